@@ -55,7 +55,8 @@ def enc_value(v):
         v = int(v)
     if isinstance(v, int):
         return {"ty": "int", "b": limbs(v), "q": [0, 0]}
-    return {"ty": "float", "b": limbs(0), "q": recover(float(v))}
+    fn, fd = float(v).as_integer_ratio() if float(v) == float(v) and abs(float(v)) != float("inf") else (0, 1)
+    return {"ty": "float", "b": limbs(0), "q": recover(float(v)), "fn": limbs(fn), "fd": limbs(fd)}
 
 
 def enc_term(t):
@@ -344,6 +345,15 @@ def domain(ctx):
         cases.append({"term": ("eq", C(a), C(b)), "ctx": {}})
         cases.append({"term": ("eq", ("add", V("x"), C(1)), ("add", C(1), V("y"))), "ctx": {"x": a, "y": b}})
         cases.append({"term": ("eq", ("eq", C(a), V("x")), C(b)), "ctx": {"x": a}})
+    # non-integer sides that are close but not equal (relative differences 1e-12 .. 1e-9): unequal all the same
+    for l, r, cx in [(("div", V("x"), C(4)), V("y"), {"x": 1, "y": 0.2500000001}), (("mul", C(1.5), V("x")), V("y"), {"x": 2 * 10 ** 12, "y": 3 * 10 ** 12 + 1}),
+                     (("div", V("x"), C(3)), V("y"), {"x": 1.0, "y": 0.33333333334}), (("add", V("x"), C(0.5)), V("y"), {"x": 1000000.0, "y": 1000000.5000001}),
+                     (("mul", V("x"), V("x")), V("y"), {"x": 1.5, "y": 2.2500000000001}), (("sub", V("x"), C(0.25)), ("div", V("y"), C(2)), {"x": 1.0, "y": 1.5000000002}),
+                     (V("x"), ("add", V("y"), C(0.000000001)), {"x": 7.0, "y": 7.0}), (("div", V("x"), C(4)), V("y"), {"x": 1, "y": 0.25}),
+                     (("mul", C(0.1), V("x")), V("y"), {"x": 3, "y": 0.30000000000000004})]:
+        cases.append({"term": ("eq", l, r), "ctx": cx})
+        cases.append({"term": ("eq", r, l), "ctx": cx})
+        cases.append({"term": ("eq", ("eq", l, r), r), "ctx": cx})
     # sides that differ by one unit at large magnitude must still be reported as unequal
     for a in (2 ** 31, 10 ** 9, 5 * 10 ** 11, 2 ** 53, 2 ** 62, 2 ** 64 + 7, 10 ** 20):
         for d in (1, -1, 2):
